@@ -50,9 +50,9 @@ Qed.
 
 (* F18f (fix-6): cell_methods('nothing') selected every cell method. *)
 Theorem C18_old_cell_methods_selects_all_refuted :
-  keys_of (cell_methods old ex_E [VStr "nothing"]) = ["cellmethod0"] /\
-  cell_methods cur ex_E [VStr "nothing"] = [].
-Proof. split; vm_compute; reflexivity. Qed.
+  (exists r, cell_methods old ex_E [] [VStr "nothing"] = Ok r /\ keys_of r = ["cellmethod0"]) /\
+  cell_methods cur ex_E [] [VStr "nothing"] = Ok [].
+Proof. split; [eexists; split; vm_compute; reflexivity|vm_compute; reflexivity]. Qed.
 
 (* F18h (fix-7): filter, inverse_filter(), filter, inverse_filter(2) raised KeyError. *)
 Theorem C18_old_inverse_after_inverse_keyerror_refuted :
@@ -61,4 +61,30 @@ Proof.
   exists [OFilter AAnd ["and"] [FType ["domain_axis"]]; OInverse None;
           OFilter AAnd ["and"] [FNaxes [VInt 1]]; OInverse (Some 2%nat)].
   split; [vm_compute; reflexivity|eexists; vm_compute; reflexivity].
+Qed.
+
+(* Seeded variant of _filter_convert_to_domain_axis (second round): a 1-d
+   coordinate identity is converted only when EXACTLY ONE coordinate has it
+   ("len(c) == 1" in place of "len(set(c_axes)) == 1").  It breaks
+   C18_axis_named_by_coordinate_identity: the shared standard_name of a
+   dimension and an auxiliary coordinate of one axis no longer names the axis. *)
+Definition conv_by_coords_seeded (E : env) (v : val) : list string :=
+  match coords_named E v with
+  | [k] => match c_axes k with Some (a :: _) => [a] | _ => [] end
+  | _ => []
+  end.
+
+Theorem C18_seeded_unique_coordinate_refuted :
+  exists v a, names_no_axis_key sh_E v /\
+    (exists k, coord1 sh_E k /\ sel_identity [v] k = true) /\
+    convert1 identities_short true sh_E true v = [a] /\ conv_by_coords_seeded sh_E v = [].
+Proof.
+  exists (VStr "latitude"), "domainaxis0". splits.
+  - vm_compute. intros [H|[H|[]]]; discriminate.
+  - exists (nth 2 sh_cs dflt). split; [|reflexivity]. unfold coord1. splits.
+    + right; right; left; reflexivity.
+    + reflexivity.
+    + exists "domainaxis0". reflexivity.
+  - vm_compute. reflexivity.
+  - vm_compute. reflexivity.
 Qed.
